@@ -32,6 +32,7 @@ import (
 	"verifharness/cab"
 	"verifharness/cms"
 	"verifharness/deb"
+	"verifharness/dmg"
 	"verifharness/e2e"
 	"verifharness/hx"
 	"verifharness/jar"
@@ -63,6 +64,7 @@ var handlers = map[string]func([]string) string{
 	"PGP":   pgp.Handle,
 	"MACHO": macho.Handle,
 	"DEB":   deb.Handle,
+	"DMG":   dmg.Handle,
 	"ZIPRW": ziprw.Handle,
 	"CAB":   cab.Handle,
 	"PS":    ps.Handle,
@@ -155,6 +157,7 @@ func init() {
 	for _, p := range []string{"C01", "C02", "C03", "C08", "C11"} {
 		gens[p] = append(gens[p], forProp(p, pe.Gen))
 		gens[p] = append(gens[p], forProp(p, macho.Gen))
+		gens[p] = append(gens[p], forProp(p, dmg.Gen))
 		if p != "C11" { // C11 has its own runner (crash isolation, workers); it sweeps cab/ps through the entry points
 			gens[p] = append(gens[p], forProp(p, cab.Gen))
 			gens[p] = append(gens[p], forProp(p, ps.Gen))
